@@ -86,7 +86,7 @@ func runRtProfile(seed uint64, cases int, out func(cmd, obs J), stats string) {
 		handover := r.intn(2) == 0
 		cmd := J{"k": "rtcase", "id": c, "profile": "rt", "dt": typ, "n": n, "ops": perClient, "notifyDelayMs": delayMs, "respDelayMs": respDelayMs, "handover": handover}
 		obs := J{}
-		hung := guarded(obs, func() {
+		hung := guardedFor(obs, 40*time.Second, func() {
 			_, _, _ = w.stepMkCol("cola")
 			lis, err := net.Listen("tcp", "127.0.0.1:0")
 			if err != nil {
@@ -223,10 +223,26 @@ func runRtProfile(seed uint64, cases int, out func(cmd, obs J), stats string) {
 			t0 := time.Now()
 			var views []interface{}
 			ok := false
+			// the clients' visible progress: end of the stored log and every client's checkpoint and pending count
+			progress := func() string {
+				sig := fmt.Sprint(logEnd())
+				for _, rc := range cls {
+					pk := rc.dt.(interface{ CreatePushPullPack() *model.PushPullPack }).CreatePushPullPack()
+					sig += fmt.Sprintf("|%d,%d,%d", pk.CheckPoint.Sseq, pk.CheckPoint.Cseq, len(pk.Operations))
+				}
+				return sig
+			}
+			// waits until the clients have converged, or NOTHING has moved for `limit` (a slow machine is not a stranded operation), at most 12 s
 			waitConv := func(limit time.Duration) {
+				hard := time.Now().Add(12 * time.Second)
 				deadline := time.Now().Add(limit)
+				last := progress()
 				stable := 0
-				for time.Now().Before(deadline) {
+				for time.Now().Before(deadline) && time.Now().Before(hard) {
+					if cur := progress(); cur != last {
+						last = cur
+						deadline = time.Now().Add(limit)
+					}
 					ok, views = same(false)
 					if ok {
 						stable++
